@@ -10,6 +10,9 @@ Clauses (Fail.clause):
   parent                     member.parent is its container (top-level: member.modules_collection is the collection)
   retrievable                collection.get_member(obj.path) is obj for every object and alias in the tree
   lookup-forms               dotted == tuple == chained lookup, get_member and [], from every ancestor
+  lookup-through-alias       for every in-tree alias whose (completely resolved) chain ends at a module/class F, every member name of F
+                             looked up through the alias path (dotted, tuple, chained; get_member and []; from every ancestor) gives
+                             a wrapper alias whose target is the object currently stored in F.members; other names raise KeyError
   aliases-follow-replacement aliases whose target was the object replaced through set_member now target the replacement
   alias-registered           every resolved alias satisfies target.aliases[alias.path] is alias (for an alias -> alias chain: the
                              registry of the final target, once every link is resolved)
@@ -41,7 +44,7 @@ RULE = (
 ASSUMPTIONS = [
     "the tree is a tree: a value is inserted at one place at a time (fresh object, or a subtree detached earlier by delete/replace)",
     "the key's last part equals the value's name (otherwise obj.path cannot lead back to the object); the collection holds modules only, classes hold no modules, functions/attributes hold nothing",
-    "mutation paths go through modules/classes only: setting or deleting *through* an alias or a function is not generated",
+    "mutation paths go through modules/classes only: setting or deleting *through* an alias or a function is not generated; lookups through alias paths (the read side) are checked after every step",
     "alias registry clause: for an alias whose target is an alias, `target.aliases` is the registry of the chain's final target; it is evaluated when every link is already resolved (links followed by identity, nothing is resolved by the check, rings by path are skipped exactly as Alias.final_target rejects them) and while no later step mutated the tree or re-targeted an alias since the outer alias was attached / re-targeted (Griffe registers an outer alias once, at that moment; see findings/C16.md 5)",
     "the reference model mirrors one Griffe-specific behaviour: set_member replacing a module by a module with a different file path merges regular+stubs (.pyi); the discarded stubs module is never re-inserted; an alias value that would trigger that merge is not generated",
     "outcomes of alias.resolve_target() are not predicted (C06's subject); AliasResolutionError/CyclicAliasError are its allowed exceptions",
